@@ -1,4 +1,5 @@
 import CryoCat.Lemmas.C19_Loop
+import CryoCat.Lemmas.C19_Ties
 /-! C19 — chain tracing partitions particles into simple, distance-respecting chains.
 
 `Spec` is the statement of properties.jsonl over the output rows `(tomogram, position, object, order,
@@ -38,8 +39,18 @@ theorem tail_renumbered_by_chain_order : Gen.C19.tailByChainOrder = true := by d
 /-- a two-sided merge takes a fresh object id for the head it cuts off (repair 2d8b42a) -/
 theorem both_sides_fresh_id : Gen.C19.bothSidesFreshId = true := by decide
 
+/-- `get_nn_dist` filters `rp_dist > dist_min` under no test of `dist_min` (repair of the guard
+`elif dist_min > 0`, which let a coinciding site pass at distance 0 when `min_distance = 0`) -/
+theorem min_bound_unconditional : Gen.C19.nnMinAlways = true := by decide
+
+/-- the per-tomogram working copies are re-labelled 0..n-1 (`reset_index=True`): the code addresses
+rows by `df.index[position]`, which names ONE row only when labels do not repeat; the model addresses
+rows by position throughout (repair: lists with repeated row labels made the first merge raise) -/
+theorem subsets_positional : Gen.C19.subsetsPositional = true := by decide
+
 /-- all thirteen comparison / bookkeeping sites read from the source are the documented ones
-(`>` min, `<=` keeps the existing link at both ends, `>`/`<` select tail/head, first order 1, …) -/
+(`dist > dist_min` applied to every hit whatever `dist_min` is, `<=` keeps the existing link at both
+ends, `>`/`<` select tail/head, first order 1, …) -/
 theorem opts_documented : Opts.gen = Opts.documented := by decide
 
 /-- the numbering constants the model hard-codes are the ones in the source: object ids and order
@@ -55,12 +66,14 @@ theorem numbering_documented :
     Gen.C19.headMarker = -1 := by decide
 
 /-- the whole bodies of `get_nn_dist`, `add_chain_suffix`, `add_chain_prefix`, `trace_chains` — with
-parameters and local variables renamed to the documented names by binding position, comments and
-layout ignored — are the documented ones (digest of the syntax tree). Every statement counts, also
-those in branches no generated case executes (`output_motl`, the feature-set test): an added, removed
-or edited statement breaks this theorem; a renaming of local variables does not. -/
+parameters and local variables renamed to the documented names by binding position; comments,
+layout, type annotations, docstrings and the TEXT of exception/log messages ignored; `not (a > b)`
+read as `a <= b`; adjacent independent constant stores into different arrays in a fixed order — are
+the documented ones (digest of the syntax tree). Every statement counts, also those in branches no
+generated case executes (`output_motl`, the feature-set test): an added, removed or edited statement
+breaks this theorem; a renaming of local variables, a type hint or a reworded message does not. -/
 theorem bodies_documented :
-    Gen.C19.bodyDigests = [146488371323970315, 209518513822851188, 723751338633858201, 660282866813664413] := by
+    Gen.C19.bodyDigests = [1055860760988674168, 209518513822851188, 723751338633858201, 135505728656664680] := by
   decide
 
 /-- the signature defaults the statement and the adapter's omitted keywords depend on:
@@ -103,22 +116,30 @@ def Dist (cs : List (Cfg α)) (out : List (ORow α)) : Prop :=
       a.2.dist = c.d a.2.idx b.2.idx
 
 /-- clause 4: chains never span tomograms — a chain is a `(tomogram, object)` group, and every row
-filed under tomogram `t` is a particle of tomogram `t` -/
+filed under tomogram `t` is a particle of tomogram `t`. Since chains are DEFINED as groups inside one
+tomogram, this clause is a corollary of clause 1 (`once_no_span`), not an independent fact; it is kept
+as a conjunct because the statement names it. -/
 def NoSpan (cs : List (Cfg α)) (out : List (ORow α)) : Prop :=
   ∀ r ∈ out, ∃ c, cs[r.1]? = some c ∧ r.2.idx < c.n
 
 def Spec (cs : List (Cfg α)) (out : List (ORow α)) : Prop :=
   Once cs out ∧ Orders out ∧ Dist cs out ∧ NoSpan cs out
 
-/-- the tie exclusion of the quantifier: when `min_distance = 0` no exit site coincides with another
-particle's entry site (only pairs of particles of the tomogram are constrained) -/
+/-- no exit site coincides with another particle's entry site, or `min_distance > 0`. NOT a
+hypothesis of any theorem about the documented (= repaired) code: it is what the code BEFORE the
+repair of `get_nn_dist` needed (`min_zero_coincidence_counterexample` shows it fails without), kept to
+say precisely which inputs were affected. properties.jsonl has no such exclusion. -/
 def NoCoincidence (cs : List (Cfg α)) : Prop :=
   ∀ c ∈ cs, ∀ i j, i < c.n → j < c.n → i ≠ j → c.lo < c.d i j ∨ c.zero < c.minD
 
 /-- the full statement about the model: all four clauses for the table the model of `trace_chains`
-returns, for every list of tomograms. PROVED below (`trace_spec_full`). -/
+returns, for every list of tomograms, every distance function and all thresholds — no hypothesis
+(in particular none about coincidences or equal distances: the model breaks ties between equally
+distant candidates towards the lowest row position, `argmin`, and the clauses hold for that choice;
+see `NoTies`/`nearestEntry_order_free` for what the tie exclusion of the GENERATOR is for).
+PROVED below (`trace_spec_full`). -/
 def SpecFull (cs : List (Cfg α)) : Prop :=
-  NoCoincidence cs → Spec cs (runAll Opts.documented cs)
+  Spec cs (runAll Opts.documented cs)
 
 /-! ### clause 1 and clause 4 for the model: all inputs, all operator choices -/
 
@@ -248,7 +269,7 @@ theorem trace_orders (cs : List (Cfg α)) : Orders (runAll Opts.documented cs) :
 exit→entry distance to the latter, and it lies in (min, max]** — model, documented operators, all
 inputs, all branches (invariant `DL`: every row's recorded value is the true distance to its
 successor whenever it has one; the last member of a chain is unconstrained). -/
-theorem trace_dist (cs : List (Cfg α)) (htie : NoCoincidence cs) : Dist cs (runAll Opts.documented cs) := by
+theorem trace_dist (cs : List (Cfg α)) : Dist cs (runAll Opts.documented cs) := by
   intro a ha b hb hab hobj hord
   obtain ⟨ta, ra⟩ := a
   obtain ⟨tb, rb⟩ := b
@@ -262,20 +283,12 @@ theorem trace_dist (cs : List (Cfg α)) (htie : NoCoincidence cs) : Dist cs (run
   obtain ⟨_, hD, hnd, hlt⟩ := run_inv2 c
   obtain ⟨h1, h2⟩ := hD ra hra rb hrb hobj hord
   obtain ⟨h3, h4⟩ := inWin_documented c _ h2
-  have hne : ra.idx ≠ rb.idx := fun e => by
-    have := idx_inj_of_nodup hnd hra hrb e
-    subst this
-    omega
-  have hcm : c ∈ cs := List.mem_of_getElem? hc
-  refine ⟨c, by simpa using hc, ?_, h3, h1⟩
-  rcases htie c hcm _ _ (hlt _ (List.mem_map.2 ⟨ra, hra, rfl⟩)) (hlt _ (List.mem_map.2 ⟨rb, hrb, rfl⟩)) hne with h | h
-  · exact h
-  · exact h4 h
+  exact ⟨c, by simpa using hc, h4, h3, h1⟩
 
 /-- **The full statement holds for the model**: every particle exactly once, orders 1..k per chain,
 consecutive distances in the window and recorded, no chain spans tomograms. -/
 theorem trace_spec_full (cs : List (Cfg α)) : SpecFull cs :=
-  fun h => ⟨trace_partition_all _ cs, trace_orders cs, trace_dist cs h, trace_no_span _ cs⟩
+  ⟨trace_partition_all _ cs, trace_orders cs, trace_dist cs, trace_no_span _ cs⟩
 
 /-- **The whole statement, with "returns every particle" read in full**: besides `SpecFull`, the
 table the model returns consists of the entry-list rows themselves — every field other than
@@ -290,9 +303,9 @@ theorem trace_spec_full_particles {β : Type} (cs : List (Cfg α)) (ofInt : Int 
 
 /-- the same for the operator table regenerated from the source on every check (what the driver
 executes): an edit of any of the thirteen operator sites breaks `opts_documented` and with it this -/
-theorem trace_spec_full_gen (cs : List (Cfg α)) (h : NoCoincidence cs) : Spec cs (runAll Opts.gen cs) := by
+theorem trace_spec_full_gen (cs : List (Cfg α)) : Spec cs (runAll Opts.gen cs) := by
   rw [opts_documented]
-  exact trace_spec_full cs h
+  exact trace_spec_full cs
 
 /-- the branches the invariant is carried through are live: the 8-particle double-cut arrangement
 goes through prefix cut, suffix attach, two-sided merge, tail cut and two-sided merge with head cut -/
@@ -300,7 +313,7 @@ example : (run Opts.documented (cfgOfPts ptsDoubleCut 24 0)).tags =
     [.append, .append, .skip, .prefixCut, .suffixKeep, .both, .append, .skip, .suffixCut, .bothCut] := by
   decide +kernel
 
-/-- the hypothesis of `trace_dist`/`SpecFull` is satisfiable: it holds on the D18 arrangement -/
+/-- `NoCoincidence` (what the code before the repair needed) holds on the D18 arrangement … -/
 example : NoCoincidence [cfgOfPts ptsD18 30 0] := by
   intro c hc
   simp only [List.mem_singleton] at hc
@@ -310,18 +323,26 @@ example : NoCoincidence [cfgOfPts ptsD18 30 0] := by
   intro i j hi hj hne
   exact Or.inl (key i hi j hj hne)
 
+/-- … and fails on `ptsCoincide` with `min_distance = 0` (exit site of 0 = entry site of 1) -/
+example : ¬ NoCoincidence [cfgOfPts ptsCoincide 3 0] := by
+  intro h
+  have := h _ (List.mem_singleton.2 rfl) 0 1 (by decide) (by decide) (by decide)
+  revert this
+  decide
+
 /-! ### clauses 2 and 3 for the chain produced by the tracing loop -/
 
-/-- (kept from the first round; now subsumed by `trace_orders`/`trace_dist`) the chain the `while` loop builds from any start `p` is numbered 1.. in chain order by
-`mkChainFrom`, and each stored value is the exit→entry squared distance of that link, which lies in
-`(lo, hi]` (`lo <` under the guard `min_distance > 0`, exactly as the code filters). -/
+/-- (kept from the first round; subsumed by `trace_orders`/`trace_dist`) the chain the `while` loop
+builds from any start `p`, BEFORE any merge: each stored value is the exit→entry squared distance of
+that link and lies in `(lo, hi]` (`LinkedWin`), `mkChainFrom` numbers the members 1.. in chain order
+and gives all of them the object id `cls`. Partial: it says nothing about what the suffix/prefix
+merges do to the chain afterwards (that is `trace_orders`/`trace_dist`). -/
 theorem trace_links_partial (c : Cfg α) (traced : List Nat) (fuel p : Nat) (used : List Nat) (cls : Int) :
-    Linked Opts.documented c (traceChain Opts.documented c traced fuel p used) ∧
-    (∀ x, inWin Opts.documented c x = true → x ≤ c.hi ∧ (c.zero < c.minD → c.lo < x)) ∧
+    LinkedWin c (traceChain Opts.documented c traced fuel p used) ∧
     (mkChainFrom cls 1 (traceChain Opts.documented c traced fuel p used)).map (·.ord)
       = oneToK (traceChain Opts.documented c traced fuel p used).length ∧
     ∀ r ∈ mkChainFrom cls 1 (traceChain Opts.documented c traced fuel p used), r.obj = cls :=
-  ⟨traceChain_linked _ c traced fuel p used, fun x h => inWin_documented c x h,
+  ⟨linked_win c _ (traceChain_linked _ c traced fuel p used),
    mkChainFrom_ords cls 1 _, mkChainFrom_objs cls 1 _⟩
 
 /-- `trace_links_partial` is about real links: on D18 the loop started at `P` (position 1) links
@@ -373,6 +394,24 @@ theorem double_cut_shared_id_counterexample :
     chkOrders (runAll { Opts.documented with bothSidesFreshId := false } [cfgOfPts ptsDoubleCut 24 0]) = false := by
   decide +kernel
 
+/-- the coincidence at `min_distance = 0` (`ptsCoincide`; `max_distance = 3`): with the lower bound
+applied only under `dist_min > 0` (the code before the repair of `get_nn_dist`) the model links
+particle 0 → particle 1 at distance 0, which is not in `(0, 3]`: the distance clause fails. The
+input is inside the quantifier (`min_distance >= 0`, nothing excludes coinciding sites). -/
+theorem min_zero_coincidence_counterexample :
+    chkDist [cfgOfPts ptsCoincide 3 0]
+      (runAll { Opts.documented with nnMinAlways := false } [cfgOfPts ptsCoincide 3 0]) = false ∧
+    (runAll { Opts.documented with nnMinAlways := false } [cfgOfPts ptsCoincide 3 0]).map
+      (fun r => (r.2.idx, r.2.obj, r.2.ord, r.2.dist)) = [(0, 1, 1, 0), (1, 1, 2, 0)] := by
+  decide +kernel
+
+/-- the repaired model leaves the two particles in two one-member chains and satisfies the statement -/
+theorem min_zero_coincidence_repaired :
+    (runAll Opts.documented [cfgOfPts ptsCoincide 3 0]).map
+      (fun r => (r.2.idx, r.2.obj, r.2.ord)) = [(0, 1, 1), (1, 2, 1)] ∧
+    Spec [cfgOfPts ptsCoincide 3 0] (runAll Opts.documented [cfgOfPts ptsCoincide 3 0]) :=
+  ⟨by decide +kernel, check_sound _ _ (by decide +kernel)⟩
+
 /-- the repaired code (documented operators) satisfies the whole statement on both arrangements -/
 theorem repaired_model_passes_witnesses :
     Spec [cfgOfPts ptsD18 30 0] (runAll Opts.documented [cfgOfPts ptsD18 30 0]) ∧
@@ -382,5 +421,77 @@ theorem repaired_model_passes_witnesses :
 /-- `check_sound`'s hypothesis is satisfiable by a non-trivial output (three chains, merges, cuts) -/
 example : chainsOk [cfgOfPts ptsD18 30 0] (runAll Opts.documented [cfgOfPts ptsD18 30 0]) = true := by
   decide +kernel
+
+/-! ### which ties the generator excludes, and why no theorem above needs the exclusion
+
+`get_nn_dist` returns the FIRST hit of a radius query sorted by ascending distance; the library says
+nothing about the order of EQUALLY distant hits. The model's `argmin` takes the one with the lowest
+row position, and every theorem above holds for that choice, for all inputs. What the generator
+excludes (`NoTies`) is exactly the situation in which the real code's answer is not determined by
+its source: two candidates at the same in-window distance from one query site. On every other
+input the first hit is the same whatever order the library lists its hits in
+(`nearestEntry_order_free`, `nearestExit_order_free`), so model and code must agree row for row. -/
+
+section ties
+variable {β : Type} [LinearOrder β]
+
+/-- the ties outside the generated inputs: two ENTRY sites at the same in-window distance from one
+EXIT site (forward tracing, prefix search), or two EXIT sites at the same in-window distance from
+one ENTRY site (suffix search). Equal distances outside the window, or from different query sites,
+are not ties. -/
+def NoTies (c : Cfg β) : Prop :=
+  (∀ i j k, i < c.n → j < c.n → k < c.n → c.lo < c.d i j → c.d i j ≤ c.hi → c.d i j = c.d i k → j = k) ∧
+  (∀ i j k, i < c.n → j < c.n → k < c.n → c.lo < c.d j i → c.d j i ≤ c.hi → c.d j i = c.d k i → j = k)
+
+/-- on a tie-free tomogram the nearest active entry site does not depend on the order in which the
+candidates are listed: for EVERY listing `l` of the hits, its least element is the model's answer -/
+theorem nearestEntry_order_free (c : Cfg β) (h : NoTies c) (i : Nat) (hi : i < c.n) (ok : Nat → Bool) (l : List Nat)
+    (hl : l.Perm ((List.range c.n).filter (fun j => ok j && inWin Opts.documented c (c.d i j)))) :
+    argmin (fun j => c.d i j) l = nearestEntry Opts.documented c i ok := by
+  unfold nearestEntry
+  refine (argmin_perm _ _ _ hl.symm ?_).symm
+  intro a ha b hb hab
+  simp only [List.mem_filter, List.mem_range, Bool.and_eq_true] at ha hb
+  obtain ⟨h1, h2⟩ := (inWin_documented_iff c _).1 ha.2.2
+  exact h.1 i a b hi ha.1 hb.1 h2 h1 hab
+
+/-- the same for the nearest traced exit site seen from an entry site (suffix search) -/
+theorem nearestExit_order_free (c : Cfg β) (h : NoTies c) (i : Nat) (hi : i < c.n) (ok : Nat → Bool) (l : List Nat)
+    (hl : l.Perm ((List.range c.n).filter (fun j => ok j && inWin Opts.documented c (c.d j i)))) :
+    argmin (fun j => c.d j i) l = nearestExit Opts.documented c i ok := by
+  unfold nearestExit
+  refine (argmin_perm _ _ _ hl.symm ?_).symm
+  intro a ha b hb hab
+  simp only [List.mem_filter, List.mem_range, Bool.and_eq_true] at ha hb
+  obtain ⟨h1, h2⟩ := (inWin_documented_iff c _).1 ha.2.2
+  exact h.2 i a b hi ha.1 hb.1 h2 h1 hab
+
+/-- and what it returns is a nearest one: no active in-window entry site is closer -/
+theorem nearestEntry_is_nearest (c : Cfg β) (i : Nat) (ok : Nat → Bool) (j : Nat) (x : β)
+    (h : nearestEntry Opts.documented c i ok = some (j, x)) (k : Nat) (hk : k < c.n) (hok : ok k = true)
+    (hw : c.lo < c.d i k ∧ c.d i k ≤ c.hi) : c.d i j ≤ c.d i k := by
+  refine argmin_min _ _ j x h k ?_
+  simp only [List.mem_filter, List.mem_range, Bool.and_eq_true]
+  exact ⟨hk, hok, (inWin_documented_iff c _).2 ⟨hw.2, hw.1⟩⟩
+
+end ties
+
+/-- `NoTies` is satisfiable by a non-trivial arrangement: D18 (all in-window distances distinct) -/
+example : NoTies (cfgOfPts ptsD18 30 0) := by
+  have k1 : ∀ i, i < 6 → ∀ j, j < 6 → ∀ k, k < 6 →
+      ((cfgOfPts ptsD18 30 0).lo < (cfgOfPts ptsD18 30 0).d i j ∧
+      (cfgOfPts ptsD18 30 0).d i j ≤ (cfgOfPts ptsD18 30 0).hi ∧
+      (cfgOfPts ptsD18 30 0).d i j = (cfgOfPts ptsD18 30 0).d i k) → j = k := by decide +kernel
+  have k2 : ∀ i, i < 6 → ∀ j, j < 6 → ∀ k, k < 6 →
+      ((cfgOfPts ptsD18 30 0).lo < (cfgOfPts ptsD18 30 0).d j i ∧
+      (cfgOfPts ptsD18 30 0).d j i ≤ (cfgOfPts ptsD18 30 0).hi ∧
+      (cfgOfPts ptsD18 30 0).d j i = (cfgOfPts ptsD18 30 0).d k i) → j = k := by decide +kernel
+  exact ⟨fun i j k hi hj hk a b e => k1 i hi j hj k hk ⟨a, b, e⟩, fun i j k hi hj hk a b e => k2 i hi j hj k hk ⟨a, b, e⟩⟩
+
+/-- and it is violated where it should be: two entry sites at the same distance 1 from one exit site -/
+example : ¬ NoTies (cfgOfPts [((5, 0, 0), (0, 0, 0)), ((1, 0, 0), (9, 9, 9)), ((-1, 0, 0), (9, 9, 8))] 3 0) := by
+  intro h
+  have := h.1 0 1 2 (by decide) (by decide) (by decide) (by decide) (by decide) (by decide)
+  exact absurd this (by decide)
 
 end CryoCat.C19
